@@ -4,6 +4,7 @@ package rpm
 
 import (
 	"bytes"
+	"errors"
 	"fmt"
 	"io"
 	"os"
@@ -124,16 +125,16 @@ func (*RPM) Package(info *nfpm.Info, w io.Writer) (err error) {
 	}
 
 	if info.RPM.Signature.KeyFile != "" {
-		rpm.SetPGPSigner(sign.PGPSignerWithKeyID(
+		rpm.SetPGPSigner(asSigningFailure(sign.PGPSignerWithKeyID(
 			info.RPM.Signature.KeyFile,
 			info.RPM.Signature.KeyPassphrase,
 			info.RPM.Signature.KeyID,
-		))
+		)))
 	}
 	if signFn := info.RPM.Signature.SignFn; signFn != nil {
-		rpm.SetPGPSigner(func(data []byte) ([]byte, error) {
+		rpm.SetPGPSigner(asSigningFailure(func(data []byte) ([]byte, error) {
 			return signFn(bytes.NewReader(data))
-		})
+		}))
 	}
 
 	if err = createFilesInsideRPM(info, rpm); err != nil {
@@ -151,6 +152,22 @@ func (*RPM) Package(info *nfpm.Info, w io.Writer) (err error) {
 	}
 
 	return rpm.Write(w)
+}
+
+// asSigningFailure makes sure that whatever goes wrong in the signer is
+// reported as a nfpm.ErrSigningFailure, like the other packagers do.
+func asSigningFailure(signer func([]byte) ([]byte, error)) func([]byte) ([]byte, error) {
+	return func(data []byte) ([]byte, error) {
+		signature, err := signer(data)
+		if err != nil {
+			var failure *nfpm.ErrSigningFailure
+			if !errors.As(err, &failure) {
+				err = &nfpm.ErrSigningFailure{Err: err}
+			}
+			return nil, err
+		}
+		return signature, nil
+	}
 }
 
 func addChangeLog(info *nfpm.Info, rpm *rpmpack.RPM) error {
